@@ -48,7 +48,9 @@ def build(kind, log):
         san = "address" if kind == "asan-bin" else "thread"
         env = dict(BASE_ENV, RUSTFLAGS=f"-Zsanitizer={san}" + (" -Cforce-frame-pointers=yes" if san == "address" else ""))
         td = os.path.join(BUILD, "adlt-" + kind)
-        cmd = ["cargo", "+nightly", "build", "--release", "--offline", "--bin", "adlt", "--features", "verif_hooks", "--manifest-path", "/repo/Cargo.toml", "--target", TARGET, "--target-dir", td]
+        # line tables: sanitizer reports then name /repo/src/...:line (without them the frames only carry symbols)
+        cmd = ["cargo", "+nightly", "build", "--release", "--offline", "--bin", "adlt", "--features", "verif_hooks", "--manifest-path", "/repo/Cargo.toml", "--target", TARGET, "--target-dir", td,
+               "--config", "profile.release.debug=\"line-tables-only\""]
         if san == "thread":
             cmd.insert(5, "-Zbuild-std")
         rc, out = _run(cmd, env=env, cwd="/repo", timeout=3600)
